@@ -76,6 +76,58 @@ def stateOfOp (o : Op) : State :=
 def showState (s : State) : String :=
   s!"vb={s.version.block} va={s.version.app} cid={hx s.chainId} ih={s.initialHeight} lh={s.lastBlockHeight} ts={s.lastBlockTime.sec} tn={s.lastBlockTime.nsec} da={s.daHeight} lrh={hx s.lastResultsHash} ah={hx s.appHash}"
 
+/-! ### `reuse`: message A decoded into a receiver, a struct copy `c` kept, message B decoded into the same receiver
+(`harness/streams/c12/reuse.go`). A pure function has no aliasing: afterwards `c = decode A` and `r = decode B`.
+One behaviour of the Go code is not pure and is mirrored here (known finding `C12/aliasing/data-metadata/…`):
+`Data.FromProto` fills the `Metadata` struct the receiver already points to, and a struct copy of a `Data` shares
+that pointer — when A and B both carry metadata, the copy ends up with B's metadata (and A's transactions). -/
+
+def Data.copyAfterReuse (a b : Data) : Data :=
+  match a.metadata, b.metadata with
+  | some _, some mb => { a with metadata := some mb }
+  | _, _ => a
+
+def sumHeader (h : Header) : String := s!"enc={hx h.encode} hash={hx h.hash}"
+def sumSH (sh : SignedHeader) : String := s!"enc={hx sh.encode} hash={hx sh.header.hash}"
+def sumMeta (m : Metadata) : String := s!"enc={hx m.encode}"
+def sumData (d : Data) : String := s!"enc={hx d.encode} hash={hx d.hash} dac={hx d.daCommitment}"
+def sumSD (sd : SignedData) : String := s!"enc={hx sd.encode} hash={hx sd.data.hash} dac={hx sd.data.daCommitment}"
+def sumState (s : State) : Option String := s.encode?.map fun b => s!"enc={hx b}"
+
+/-- `after a b` = what the struct copy of `decode A` is once `B` has been decoded into the receiver -/
+def reuseObs {α : Type} (da db : Option α) (after : α → α → α) (sum : α → Option String) : String :=
+  match da with
+  | none => "err-a"
+  | some a =>
+    match sum a with
+    | none => "err-re"
+    | some _ =>
+      match db with
+      | none => "err-b"
+      | some b =>
+        match sum (after a b), sum b with
+        | some c, some r => s!"ok c=[{c}] r=[{r}]"
+        | _, _ => "err-re"
+
+def reuseStep (o : Op) : String :=
+  let a := o.bytes "a"
+  let b := o.bytes "b"
+  let ka : Bytes → Bool := fun _ => o.bool "ka"
+  let kb : Bytes → Bool := fun _ => o.bool "kb"
+  let path := o.str "path"
+  let pure {α : Type} : α → α → α := fun x _ => x
+  if path ≠ "bin" ∧ path ≠ "proto" then "bad-op" else
+  match o.str "ty" with
+  | "header" => reuseObs (Header.decode a) (Header.decode b) pure (some ∘ sumHeader)
+  | "sh" => reuseObs (SignedHeader.decode ka a) (SignedHeader.decode kb b) pure (some ∘ sumSH)
+  | "meta" => reuseObs (Metadata.decode a) (Metadata.decode b) pure (some ∘ sumMeta)
+  | "data" => reuseObs (Data.decode a) (Data.decode b) Data.copyAfterReuse (some ∘ sumData)
+  | "sd" =>
+    reuseObs (SignedData.decode ka a) (SignedData.decode kb b)
+      (fun x y => { x with data := Data.copyAfterReuse x.data y.data }) (some ∘ sumSD)
+  | "state" => if path = "proto" then reuseObs (State.decode a) (State.decode b) pure sumState else "bad-op"
+  | _ => "bad-op"
+
 def step (_ : Unit) (line : String) : Unit × String :=
   let o := parseOp line
   let keyOk : Bytes → Bool := fun _ => o.bool "keyok"
@@ -183,6 +235,7 @@ def step (_ : Unit) (line : String) : Unit × String :=
       | some n, some size =>
         if n = 0 ∨ n > 4096 ∨ size > 16777216 ∨ n * size > 1073741824 then "bad-op" else s!"ok n={n}"
       | _, _ => "bad-op"
+    | "reuse" => reuseStep o
     | "bd-enc" => s!"bytes={hx (Producer.batchDataToBytes (o.list "list"))}"
     | "bd-dec" =>
       match Producer.bytesToBatchData (o.bytes "b") with
